@@ -254,11 +254,14 @@ impl Terminal {
             Self::Trm(t, k, s, a, u, m, l) => {
                 let mut d = String::new();
                 let delimiter = k.delimiter();
-                a.decorate(&mut d, &format!("{delimiter}{t}{delimiter}"))
+                // The lookahead belongs to the token expression, attributes like `^` follow it
+                let token_expression = if let Some(la) = l {
+                    format!("{delimiter}{t}{delimiter} {}", la.to_par())
+                } else {
+                    format!("{delimiter}{t}{delimiter}")
+                };
+                a.decorate(&mut d, &token_expression)
                     .map_err(|e| anyhow!("Decorate error!: {}", e))?;
-                if let Some(la) = l {
-                    write!(d, " {}", la.to_par()).map_err(|e| anyhow!(e))?;
-                }
                 if let Some(member) = m {
                     if l.is_some() {
                         // Add space between lookahead expression and member
